@@ -379,7 +379,15 @@ func (rp *HTTPReverseProxy) serveRouted(proxy http.Handler, rw http.ResponseWrit
 	newreq := rp.injectRequestInfoToCtx(req)
 	if req.Method == http.MethodConnect {
 		rp.connectHandler(rw, newreq)
-	} else {
-		proxy.ServeHTTP(rw, newreq)
+		return
 	}
+	if rc, _ := newreq.Context().Value(RouteConfigKey).(*RouteConfig); rc == nil {
+		// No route: answer here. The transport picks idle backend connections by URL host before it dials,
+		// and an unrouted request would carry its own Host there - which may spell the pool key of a route.
+		log.Logf(log.WarnLevel, 1, "do http proxy request [host: %s] error: %v", req.Host, ErrNoRouteFound)
+		rw.WriteHeader(http.StatusNotFound)
+		_, _ = rw.Write(getNotFoundPageContent())
+		return
+	}
+	proxy.ServeHTTP(rw, newreq)
 }
